@@ -246,6 +246,20 @@ class Run:
                         w = self.eng.cmd(f"!wait_parked {op[1]} 2000")
                         if not w.get("parked"):
                             self.notes.append(f"park point {op[1]} not reached")
+                    elif op[0] == "MARKHITS":
+                        self.hit_marks = getattr(self, "hit_marks", {})
+                        self.hit_marks[op[1]] = int(self.eng.cmd(f"!hits {op[1]}").get("hits", 0))
+                    elif op[0] == "WAITMORE":
+                        import time as _t
+                        base_n = getattr(self, "hit_marks", {}).get(op[1], 0)
+                        ok = False
+                        for _ in range(400):
+                            if int(self.eng.cmd(f"!hits {op[1]}").get("hits", 0)) >= base_n + int(op[2]):
+                                ok = True
+                                break
+                            _t.sleep(0.005)
+                        if not ok:
+                            self.notes.append(f"step point {op[1]} was not hit {op[2]} more times")
                     elif op[0] == "WAITHITS":
                         import time as _t
                         ok = False
